@@ -537,6 +537,140 @@ theorem pipe_prog (C : Prog) (stages : List (Prog × List Nat))
     rw [hc]; simpa using hr
   exact ⟨hC, Prog.evalW_of_evalC C ins out hC⟩
 
+theorem pipeC_two (P1 P2 : Prog) (cs : List Nat) (x y out : List Nat)
+    (h1 : P1.evalC (x ++ cs) = some y) (h2 : P2.evalC y = some out) :
+    pipeC [(P1, cs), (P2, [])] x = some out := by
+  simp [pipeC, h1, h2]
+
+theorem pipeC_two_nil (P1 P2 : Prog) (x y out : List Nat)
+    (h1 : P1.evalC x = some y) (h2 : P2.evalC y = some out) :
+    pipeC [(P1, []), (P2, [])] x = some out := by
+  simp [pipeC, h1, h2]
+
+theorem pipeC_append : ∀ (s1 s2 : List (Prog × List Nat)) (x y out : List Nat),
+    pipeC s1 x = some y → pipeC s2 y = some out → pipeC (s1 ++ s2) x = some out
+  | [], s2, x, y, out, h1, h2 => by
+    simp only [pipeC, Option.some.injEq] at h1; subst h1; simpa using h2
+  | (P, cs) :: s1, s2, x, y, out, h1, h2 => by
+    simp only [pipeC, Option.bind_eq_some_iff] at h1
+    obtain ⟨z, hz, h1⟩ := h1
+    simp only [List.cons_append, pipeC, hz, Option.bind_some]
+    exact pipeC_append s1 s2 z y out h1 h2
+
+/-! ## scripts: general data flow (every call takes earlier values, selected by index, and constants) -/
+
+/-- an argument of a call: `inl i` = the `i`-th value computed so far (the inputs come first), `inr c` = a constant -/
+abbrev Arg := Nat ⊕ Nat
+
+def selV (V : List Nat) : Arg → Nat
+  | .inl i => V.getD i 0
+  | .inr c => c
+
+def selE (σ : List E) : Arg → E
+  | .inl i => σ.getD i bad
+  | .inr c => .c c
+
+def argOK (n : Nat) : Arg → Bool
+  | .inl i => decide (i < n)
+  | .inr _ => true
+
+/-- checked semantics of a script: the list of all values (inputs, then the outputs of each call in turn) -/
+def scriptC : List (Prog × List Arg) → List Nat → Option (List Nat)
+  | [], V => some V
+  | (P, as) :: rest, V => (P.evalC (as.map (selV V))).bind (fun out => scriptC rest (V ++ out))
+
+/-- replay the script against a body -/
+def scriptChk : List (Prog × List Arg) → List E → Nat → List S → Option (List E × List S)
+  | [], σ, _, comp => some (σ, comp)
+  | (P, as) :: rest, σ, n, comp =>
+    if as.all (argOK σ.length) then
+      match inl P (as.map (selE σ)) n comp with
+      | some (o, n', r) => scriptChk rest (σ ++ o) n' r
+      | none => none
+    else none
+
+theorem Inv_sel {env1 : List Nat} {σ : List E} {V : List Nat} (h : Inv env1 σ V) :
+    ∀ as : List Arg, (∀ a ∈ as, argOK σ.length a = true) → Inv env1 (as.map (selE σ)) (as.map (selV V))
+  | [], _ => trivial
+  | a :: as, hok => by
+    refine ⟨?_, Inv_sel h as (fun b hb => hok b (List.mem_cons_of_mem _ hb))⟩
+    cases a with
+    | inl i =>
+      have : i < σ.length := by simpa [argOK] using hok (.inl i) List.mem_cons_self
+      exact Inv_getD h i this
+    | inr c => exact Or.inl rfl
+
+theorem script_sound : ∀ (stages : List (Prog × List Arg)) (σ : List E) (n : Nat) (comp : List S) (σF : List E)
+    (restF : List S) (env1 V VF : List Nat),
+    scriptChk stages σ n comp = some (σF, restF) → Inv env1 σ V → env1.length = n → scriptC stages V = some VF →
+    ∃ used ys, comp = used ++ restF ∧ runC used env1 = some (env1 ++ ys) ∧ Inv (env1 ++ ys) σF VF := by
+  intro stages
+  induction stages with
+  | nil =>
+    intro σ n comp σF restF env1 V VF h hinv _ hp
+    simp only [scriptChk, Option.some.injEq, Prod.mk.injEq] at h
+    obtain ⟨rfl, rfl⟩ := h
+    simp only [scriptC, Option.some.injEq] at hp
+    subst hp
+    exact ⟨[], [], by simp, by simp [runC], by simpa using hinv⟩
+  | cons st stages ih =>
+    intro σ n comp σF restF env1 V VF h hinv hlen hp
+    obtain ⟨P, as⟩ := st
+    simp only [scriptC, Option.bind_eq_some_iff] at hp
+    obtain ⟨y, hP, hp⟩ := hp
+    simp only [scriptChk] at h
+    split at h
+    · rename_i hok
+      split at h
+      · rename_i o n' r hinl
+        have hargs := Inv_sel hinv as (fun a ha => List.all_eq_true.1 hok a ha)
+        obtain ⟨used1, ys1, hc1, hr1, hi1, hl1⟩ := inl_sound P _ n comp o n' r env1 _ y hinl hargs hlen hP
+        have hinv' : Inv (env1 ++ ys1) (σ ++ o) (V ++ y) := Inv_append (Inv_mono ys1 hinv) hi1
+        obtain ⟨used2, ys2, hc2, hr2, hi2⟩ := ih _ n' r σF restF (env1 ++ ys1) _ VF h hinv' hl1 hp
+        refine ⟨used1 ++ used2, ys1 ++ ys2, by simp [hc1, hc2], ?_, by simpa using hi2⟩
+        rw [runC_append used1 used2 env1 _ hr1]
+        simpa using hr2
+      · simp at h
+    · simp at h
+
+/-- **a composed item is the script of its callees**: `osel` selects the results among all values -/
+theorem script_prog (C : Prog) (stages : List (Prog × List Arg)) (σF : List E) (osel : List Nat)
+    (h : scriptChk stages ((List.range C.nIn).map E.v) C.nIn C.body = some (σF, []))
+    (hout : C.outs.map E.v = osel.map (fun i => σF.getD i bad)) (hsel : osel.all (fun i => decide (i < σF.length)) = true)
+    (ins VF : List Nat) (hlen : ins.length = C.nIn) (hp : scriptC stages ins = some VF) :
+    C.evalC ins = some (pick VF osel) ∧ C.evalW ins = pick VF osel := by
+  have hinv : Inv ins ((List.range C.nIn).map E.v) ins := by rw [← hlen]; exact Inv_init ins
+  obtain ⟨used, ys, hc, hr, hi⟩ := script_sound stages _ _ _ _ _ ins ins VF h hinv hlen hp
+  have hC : C.evalC ins = some (pick VF osel) := by
+    apply comp_final C ins (ins ++ ys) _ hlen
+    · rw [hc]; simpa using hr
+    · rw [hout]
+      exact Inv_pick hi osel (fun i hi' => by simpa using List.all_eq_true.1 hsel i hi')
+  exact ⟨hC, Prog.evalW_of_evalC C ins _ hC⟩
+
+/-- the decidable check of `script_prog` in one piece -/
+def scriptOK (C : Prog) (stages : List (Prog × List Arg)) (osel : List Nat) : Bool :=
+  match scriptChk stages ((List.range C.nIn).map E.v) C.nIn C.body with
+  | some (σF, []) =>
+    osel.all (fun i => decide (i < σF.length)) && decide (C.outs.map E.v = osel.map (fun i => σF.getD i bad))
+  | _ => false
+
+theorem script_prog' (C : Prog) (stages : List (Prog × List Arg)) (osel : List Nat)
+    (h : scriptOK C stages osel = true)
+    (ins VF : List Nat) (hlen : ins.length = C.nIn) (hp : scriptC stages ins = some VF) :
+    C.evalC ins = some (pick VF osel) ∧ C.evalW ins = pick VF osel := by
+  unfold scriptOK at h
+  split at h
+  · rename_i σF hchk
+    simp only [Bool.and_eq_true, decide_eq_true_eq] at h
+    exact script_prog C stages σF osel hchk h.2 h.1 ins VF hlen hp
+  · simp at h
+
+theorem scriptC_cons (P : Prog) (as : List Arg) (rest : List (Prog × List Arg)) (V out VF : List Nat)
+    (h1 : P.evalC (as.map (selV V)) = some out) (h2 : scriptC rest (V ++ out) = some VF) :
+    scriptC ((P, as) :: rest) V = some VF := by
+  simp [scriptC, h1, h2]
+
 end Inline
 
 end Dalek.IR
